@@ -20,7 +20,7 @@ KEYSIGS = ['*k[]', '*k[f#]', '*k[b-e-]', '*k[f#c#g#]', '*kcancel', '*k[b-]X']
 TIMESIGS = ['*M4/4', '*M3/4', '*M6/8', '*M2+3/8', '*M3/4:2/4', '*M2/2%2']
 METERS = ['*met(c)', '*met(c|)', '*met(O.)', '*M(c)']
 STAFFS = ['*staff1', '*staff2', '*staff1/2']
-BBOXES = ['*xywh-1:0,0,10,10', '*xywh-2:5,6,70,80']
+BBOXES = ['*xywh-1:0,0,10,10', '*xywh-2:5,6,70,80', '*xywh-1:3,4,200,1', '*xywh-10:0,90,15,15', '*xywh-2:0,0,1,1', '*xywh-3:7,7,7,7']
 OCTX = ['*MM120', '*MM96.5', '*C:', '*a:', '*C/a:', '*8va', '*X8va', '*8ba', '*e-:', '*F#:dor']
 TANDEM = ['*Ipiano', '*I"Violin I', '*mI"Title', '*>A', '*>[A,B,A]', '*>norep[A,B]', '*tb8', '*rh', '*lh', '*part1', '*group2',
           '*solo', '*accomp', '*strophe', '*Trd1c2', '*ITrd-1c-2', '*S/sic', '*S/ossia']
